@@ -27,10 +27,9 @@ def main():
         rc, o = sh(["/venv/bin/python", "-m", "pytest", "-q", "-p", "no:cacheprovider", "-x"], cwd=wt, env=env)
         out["suite"] = o.strip().splitlines()[-1] if o.strip() else ""; out["suite_green"] = rc == 0
         alarms = {}
-        for rule in sorted(glob.glob(os.path.join(VERIF, "sa", "rules", "c[0-9][0-9].py"))):
-            pid = os.path.basename(rule)[:-3].upper()
-            cenv = dict(os.environ, VERIF_EVIDENCE_DIR=os.path.join(tmp, "evidence"))
-            rc, o = sh(["/venv/bin/python", os.path.join(VERIF, "sa", "check.py"), pid, "--repo", wt], env=cenv, timeout=300)
+        from tools_common import run_all
+
+        for pid, (rc, o) in sorted(run_all(wt, os.path.join(tmp, "evidence")).items()):
             if rc != 0:
                 alarms[pid] = {"exit": rc, "reports": [l.strip()[:260] for l in o.splitlines() if (" at " in l and l.startswith("  C")) or l.startswith("ANALYSIS-ERROR")][:4]}
         out["alarms"] = alarms
